@@ -121,8 +121,9 @@ type vcase struct {
 	Status   int        `json:"status"`
 	XResp    []string   `json:"xresp"`
 	Read     readJ      `json:"read"`
-	Answered bool       `json:"answered"`
-	Sleep    int        `json:"sleep"`
+	Proxied  bool       `json:"proxied"`
+	Up       []string   `json:"up"`
+	Busy     int        `json:"busy"` // milliseconds the scripted handler sleeps (0 when it does not run)
 	Vocab    *vocabJ    `json:"vocab,omitempty"`
 }
 
@@ -427,6 +428,7 @@ type observed struct {
 	Status   int      `json:"status"`
 	XVocab   []string `json:"xvocab,omitempty"`
 	XResp    string   `json:"xresp"`
+	SawUp    string   `json:"saw_up,omitempty"`
 	Body     string   `json:"body"`
 	LogRaw   string   `json:"log_raw,omitempty"`
 	LogField []string `json:"-"`
@@ -545,6 +547,7 @@ func (fx *fixture) exchange(c *vcase, rnd *rand.Rand) observed {
 			o.XVocab = strings.Split(v[0], Delim)
 		}
 		o.XResp = strings.Join(resp.header["X-Resp"], ",")
+		o.SawUp = strings.Join(resp.header["X-Saw-Up-Body"], ",")
 		o.LogRaw = fx.waitLog(c.Site)
 		return o
 	}
@@ -683,8 +686,8 @@ func judgeField(name string, exp []string, got string, where string, o *observed
 			}
 			clock[where+":"+name] = t
 			lo, hi := o.Before.Truncate(gran), o.After
-			if where == "log" && c.Answered {
-				lo = o.Before.Add(time.Duration(c.Sleep) * time.Millisecond).Truncate(gran)
+			if where == "log" {
+				lo = o.Before.Add(time.Duration(c.Busy) * time.Millisecond).Truncate(gran)
 			}
 			if t.Before(lo) || t.After(hi) {
 				return false, fmt.Sprintf("a reading of the clock between %s and %s", lo.Format(time.RFC3339Nano), hi.Format(time.RFC3339Nano))
@@ -692,20 +695,14 @@ func judgeField(name string, exp []string, got string, where string, o *observed
 			return true, ""
 		case "@latency":
 			d, err := time.ParseDuration(got)
-			busy := time.Duration(0)
-			if c.Answered {
-				busy = time.Duration(c.Sleep) * time.Millisecond
-			}
+			busy := time.Duration(c.Busy) * time.Millisecond
 			if err != nil || d < busy-time.Millisecond || d > o.After.Sub(o.Before)+time.Millisecond {
 				return false, fmt.Sprintf("a duration between %v and %v", busy, o.After.Sub(o.Before))
 			}
 			return true, ""
 		case "@latency_ms":
 			n, err := strconv.ParseInt(got, 10, 64)
-			busy := int64(0)
-			if c.Answered {
-				busy = int64(c.Sleep)
-			}
+			busy := int64(c.Busy)
 			if err != nil || n < busy-1 || n > o.After.Sub(o.Before).Milliseconds()+1 {
 				return false, fmt.Sprintf("milliseconds between %d and %d", busy, o.After.Sub(o.Before).Milliseconds())
 			}
@@ -713,9 +710,6 @@ func judgeField(name string, exp []string, got string, where string, o *observed
 		case "@reqid":
 			if !uuidRe.MatchString(got) {
 				return false, "a UUID"
-			}
-			if prev, ok := clock["reqid"]; ok && !prev.IsZero() {
-				_ = prev
 			}
 			return true, ""
 		case "@cert.v_remain":
@@ -771,6 +765,12 @@ func (fx *fixture) judge(c *vcase, o *observed, names []string) []verdict {
 			}
 		}
 	}
+	// the header_upstream rule of the proxy, as the backend received it
+	if c.Proxied {
+		if want := o.w.resolve(c.Up, "header"); o.SawUp != want {
+			add("body-untouched", "request_body", fmt.Sprintf("proxy: the backend received X-Up-Body %q, the header_upstream rule \"[{request_body}]\" must give %q", clip(o.SawUp, 200), clip(want, 200)), want, o.SawUp)
+		}
+	}
 	clock := map[string]time.Time{}
 	// the header rule
 	if len(o.XVocab) != len(names)+1 || o.XVocab[len(names)] != "END" {
@@ -819,9 +819,9 @@ func (fx *fixture) judge(c *vcase, o *observed, names []string) []verdict {
 			add("time-monotone", n, fmt.Sprintf("{%s} of the log entry (%v) lies before {%s} of the header rule (%v)", n, l, n, h), "", "")
 		}
 	}
-	if hm, ok1 := clock["header:when_unix_ms"]; ok1 && c.Answered && c.Sleep > 0 {
-		if lm, ok2 := clock["log:when_unix_ms"]; ok2 && lm.Sub(hm) < time.Duration(c.Sleep)*time.Millisecond {
-			add("time-monotone", "when_unix_ms", fmt.Sprintf("the handler slept %d ms between the header rule and the log entry, their {when_unix_ms} differ by %v", c.Sleep, lm.Sub(hm)), "", "")
+	if hm, ok1 := clock["header:when_unix_ms"]; ok1 && c.Busy > 0 {
+		if lm, ok2 := clock["log:when_unix_ms"]; ok2 && lm.Sub(hm) < time.Duration(c.Busy)*time.Millisecond {
+			add("time-monotone", "when_unix_ms", fmt.Sprintf("the handler slept %d ms between the header rule and the log entry, their {when_unix_ms} differ by %v", c.Busy, lm.Sub(hm)), "", "")
 		}
 	}
 	// {request_id}: one id per request, the same in both expansions
